@@ -12,9 +12,9 @@
 \*                  62..65 filler rules + 2-5 random rules (merged rule list 63..67 entries)
 \* Sample points per axis: 4 cell midpoints + every breakpoint -1 / +0 / +1 F2Dot14 quantum (17 values);
 \* 2 axes: the full 17 x 17 product.  env: FV_SEED (0..9999).  Run with -continue -deadlock.
-\* RankFixed = FALSE: Rank arithmetic as in the code today (finding KF2). Set TRUE (here, in the other
-\* FeatVars*.cfg) once the KF2 fix of docs/C16.md is in /repo.
-CONSTANT RankFixed = FALSE
+\* RankFixed = FALSE: Rank arithmetic as in the code before repo fix 'feature-variation rank ordering' (finding KF2);
+\* TRUE: as in the code now (sort by count_ones, words aligned at the end).
+CONSTANT RankFixed = TRUE
 CONSTANT Families <- QuickFamilies
 INIT Init
 NEXT Next
